@@ -245,7 +245,7 @@ func execC12(c *hx.Case) (*hx.Result, error) {
 		case "ao":
 			before := w.spl.n
 			err := w.store.AddOperatorSnapshot(&snapshotpb.OperatorCheckpoint{
-				CheckpointId: cid, OperatorId: opName(o.Op), DkvFileUri: dkvURI(o.Op, o.Pl),
+				CheckpointId: cid, OperatorId: opName(o.Op), DkvFileUri: dkvURI(o.Op, o.Pl, cid),
 				KeyGroupRange: &snapshotpb.KeyGroupRange{Start: 0, End: 0}})
 			pt, po, perr := w.afterAck(before)
 			if perr != nil {
@@ -455,7 +455,7 @@ func execC13(c *hx.Case) (*hx.Result, error) {
 		case "pub":
 			id, err := w.store.CreateCheckpoint([]string{opName(1)}, []string{srName(1)})
 			if err == nil {
-				e1 := w.store.AddOperatorSnapshot(&snapshotpb.OperatorCheckpoint{CheckpointId: id, OperatorId: opName(1), DkvFileUri: dkvURI(1, id)})
+				e1 := w.store.AddOperatorSnapshot(&snapshotpb.OperatorCheckpoint{CheckpointId: id, OperatorId: opName(1), DkvFileUri: dkvURI(1, id, id)})
 				e2 := w.store.AddSourceSnapshot(&jobpb.SourceRunnerCheckpointCompleteRequest{CheckpointId: id, SourceRunnerId: srName(1), SplitStates: [][]byte{bytesOfTok(id)}})
 				if e1 != nil || e2 != nil {
 					return nil, fmt.Errorf("acks rejected: %v %v", e1, e2)
